@@ -7,7 +7,10 @@ import time
 import os
 from fractions import Fraction
 
-import z3
+try:
+    import z3
+except ImportError:      # the repository's own venv has no z3: only Facts / sign analysis are used there
+    z3 = None
 
 from . import terms as T
 from .terms import Poly, Cond, P, C, ZERO, ONE
@@ -176,6 +179,60 @@ def sign_poly(p, F):
         if tot == "?":
             return "?"
     return tot
+
+
+def simplify_facts(p, F, depth=0):
+    """use the lower/upper-bound facts on array elements to collapse max/min atoms anywhere in a term
+    (also under binders, where z3 sees only an opaque atom):  max(v[i], thr) = v[i] when v >= thr is a fact"""
+    if not isinstance(p, Poly) or depth > 8 or not (F.lower or getattr(F, "upper", None)):
+        return p
+
+    def bound_ok(x, y, table, ge):
+        # is x (an element of a bounded array) known >= y (ge) / <= y ?
+        at = T._single_atom(x, "app")
+        if at is None or at.args[0] not in table:
+            return False
+        try:
+            b = P(table[at.args[0]](*at.args[1:]))
+        except TypeError:
+            return False
+        return T.equal(b, y)
+
+    def fix_atom(a):
+        k = a.kind
+        if k in ("max", "min"):
+            x, y = simplify_facts(a.args[0], F, depth + 1), simplify_facts(a.args[1], F, depth + 1)
+            for u, w in ((x, y), (y, x)):
+                if bound_ok(u, w, F.lower, True):
+                    return u if k == "max" else w
+                if bound_ok(u, w, getattr(F, "upper", {}), False):
+                    return w if k == "max" else u
+            return T.mk_max(x, y) if k == "max" else T.mk_min(x, y)
+        if k in T.BINDERS:
+            v, bnd, body = T.open_binder(a)
+            nb = simplify_facts(body, F, depth + 1)
+            if nb is body:
+                return None
+            return T.close_binder(k, v, bnd, nb, a.sort)
+        if k in ("sym", "bv"):
+            return None
+        new = T.rebuild_atom(a, lambda q: simplify_facts(q, F, depth + 1) if isinstance(q, Poly) else q)
+        if len(new.terms) == 1 and new.terms[0][0] == ((a, 1),) and new.terms[0][1] == 1:
+            return None
+        return new
+    out = ZERO
+    changed = False
+    for m, c in p.terms:
+        t = Poly.const(c)
+        for a, pw in m:
+            r = fix_atom(a)
+            if r is None:
+                t = t * Poly.atom(a, pw)
+            else:
+                changed = True
+                t = t * (r ** pw)
+        out = out + t
+    return out if changed else p
 
 
 # ---------------------------------------------------------------- z3 translation
